@@ -30,6 +30,9 @@ class SimSelector:
             self.w.anomaly("register-closed-socket", "closed socket %s registered" % fileobj.name)
             raise ValueError("closed file")
         self.map[fileobj] = Key(fileobj, data)
+        if hasattr(fileobj, "client"):
+            # a connection handed (back) to the poller is idle from this moment: the keep-alive period counts from here
+            fileobj.last_keep_deadline = self.w.s.now + self.w.keepalive_s
 
     def unregister(self, fileobj):
         self.w.s.point("poller.unregister")
@@ -172,7 +175,8 @@ class SimSocket:
                     self.name, self.total_in, answered))
             self.closed_at = self.w.s.now
             self.closed_by = me.name if me else None
-            self.w.closes.append((self.name, self.w.s.now, self.closed_by, self.w.in_murder))
+            # "by the reaper" = closed by the very flow that is inside murder_keepalived(), not by a handler that happens to run meanwhile
+            self.w.closes.append((self.name, self.w.s.now, self.closed_by, self.w.in_murder is not False and self.w.in_murder is self.w.s.cur))
 
     def getpeername(self):
         return ("10.0.0.%d" % (self.client + 1), 4000)
@@ -263,6 +267,7 @@ class World:
         self.gates = []            # tasks parked in the application gate: (task, released flag holder)
         self.app_calls = []
         self.responses = {}
+        self.keepalive_s = keepalive
         kw = {"threads": threads, "worker_connections": worker_connections, "keepalive": keepalive}
         if max_requests:
             kw["max_requests"] = max_requests
@@ -280,7 +285,7 @@ class World:
 
             def murder_keepalived(self_):
                 world.murder_passes.append(world.s.now)
-                world.in_murder = True
+                world.in_murder = world.s.cur
                 try:
                     return G.ThreadWorker.murder_keepalived(self_)
                 finally:
